@@ -15,6 +15,7 @@
 #include <sys/ioctl.h>
 #include <sys/un.h>
 #include <fcntl.h>
+#include <poll.h>
 #include <unistd.h>
 #include <errno.h>
 #include <event2/ws.h>
@@ -38,11 +39,33 @@ struct ws_sess {
 	size_t hs_len;                    /* length of the HTTP response head inside rx (0 = not seen) */
 	int tx_broken;                    /* our writes started to fail (peer closed) */
 	long activity;                    /* bumped by every harness callback */
-	long live0; uint64_t fd0;
+	long live0; uint64_t fd0[2]; uint64_t fdsig0; int fdsig_taken;
 	const char *tag;                  /* property id for harness failure keys */
 };
 
 static void ws_log_quiet(int sev, const char *msg) { (void)sev; (void)msg; }
+
+/* AddressSanitizer keeps freed chunks in a 256 MB quarantine by default, so every execution
+ * touches fresh pages (page faults dominate the run time by a factor > 10 here).  A few MB
+ * still cover several complete executions.  Options given in ASAN_OPTIONS take precedence. */
+const char *__asan_default_options(void);
+const char *__asan_default_options(void) { return "quarantine_size_mb=4"; }
+
+/* which of the fds 0..127 are open: one poll() call (POLLNVAL marks closed ones).
+ * Cheap stand-in for mcx_fd_signature(), which is still used on every 64th session. */
+static void ws_fd_bitmap(uint64_t out[2])
+{
+	struct pollfd pf[128]; int i;
+	for (i = 0; i < 128; i++) { pf[i].fd = i; pf[i].events = 0; pf[i].revents = 0; }
+	out[0] = out[1] = 0;
+	if (poll(pf, 128, 0) < 0) return;
+	for (i = 0; i < 128; i++) if (!(pf[i].revents & POLLNVAL)) out[i >> 6] |= 1ULL << (i & 63);
+}
+static unsigned long ws_sess_counter;
+
+/* receive buffer of the harness end: harness memory, reused by all executions (never read
+ * beyond rxlen, which is reset per session) */
+static unsigned char *ws_rx_buf; static size_t ws_rx_cap;
 
 static void ws_on_msg(struct evws_connection *evws, int type, const unsigned char *data, size_t len, void *arg)
 {
@@ -106,11 +129,12 @@ static size_t ws_drain(struct ws_sess *s)
 	size_t got = 0;
 	for (;;) {
 		ssize_t r;
-		if (s->rxcap - s->rxlen < 65536) {
-			s->rxcap = s->rxcap ? s->rxcap * 2 : 1 << 17;
-			s->rx = realloc(s->rx, s->rxcap);
-			if (!s->rx) abort();
+		if (ws_rx_cap - s->rxlen < 65536) {
+			ws_rx_cap = ws_rx_cap ? ws_rx_cap * 2 : 1 << 17;
+			ws_rx_buf = realloc(ws_rx_buf, ws_rx_cap);
+			if (!ws_rx_buf) abort();
 		}
+		s->rx = ws_rx_buf; s->rxcap = ws_rx_cap;
 		r = read(s->sv[1], s->rx + s->rxlen, s->rxcap - s->rxlen);
 		if (r > 0) { s->rxlen += (size_t)r; got += (size_t)r; continue; }
 		if (r == 0) s->rx_eof = 1;
@@ -161,7 +185,8 @@ static int ws_sess_open(struct ws_sess *s, const char *tag, size_t max_headers)
 	memset(s, 0, sizeof *s);
 	s->tag = tag;
 	s->live0 = mcx_alloc_live();
-	s->fd0 = mcx_fd_signature();
+	ws_fd_bitmap(s->fd0);
+	if ((ws_sess_counter++ & 63) == 0 || mc_replaying()) { s->fdsig0 = mcx_fd_signature(); s->fdsig_taken = 1; }
 	s->sv[0] = s->sv[1] = -1;
 	if (socketpair(AF_UNIX, SOCK_STREAM | SOCK_NONBLOCK, 0, s->sv) < 0) { mc_fail("harness:ws-socketpair", "%s", strerror(errno)); return -1; }
 	s->base = event_base_new();
@@ -227,12 +252,17 @@ static void ws_sess_close(struct ws_sess *s)
 	if (s->sv[1] >= 0) close(s->sv[1]);
 	if (mcx_alloc_live() != s->live0)
 		mc_fail("leak:ws-session", "%s: %ld library allocations outlive the session", s->tag, mcx_alloc_live() - s->live0);
-	if (mcx_fd_signature() != s->fd0) {
-		mc_fail("fdleak:ws-session", "%s: fd table differs from baseline after teardown", s->tag);
-		if (s->sv[0] >= 0) close(s->sv[0]);        /* keep later executions on the same fd numbers */
+	{
+		uint64_t now[2];
+		ws_fd_bitmap(now);
+		if (now[0] != s->fd0[0] || now[1] != s->fd0[1] || (s->fdsig_taken && mcx_fd_signature() != s->fdsig0)) {
+			mc_fail("fdleak:ws-session", "%s: fd table differs from baseline after teardown (open fds %#llx, baseline %#llx)",
+			    s->tag, (unsigned long long)now[0], (unsigned long long)s->fd0[0]);
+			if (s->sv[0] >= 0) close(s->sv[0]);    /* keep later executions on the same fd numbers */
+		}
 	}
 	for (i = 0; i < s->nmsgs; i++) free(s->msgs[i].data);
-	free(s->msgs); free(s->rx); free(s->key_seen);
+	free(s->msgs); free(s->key_seen);
 	s->msgs = NULL; s->rx = NULL; s->key_seen = NULL;
 }
 
